@@ -289,7 +289,7 @@ def _run_group_once(g: Group, prop: str, keep_trace=True, sub="") -> Result:
                 raise Infra("goto-instrument --dfcc failed: " + (err or out)[-3000:])
             cur = b
         cmd = ["cbmc", cur] + (["--function", g.entry] if g.oldstyle else []) + ["--json-ui", "--drop-unused-functions", "--unwind", str(g.unwind)] + \
-              ([] if g.no_unwinding_assertions else ["--unwinding-assertions"]) + g.checks
+              (["--no-unwinding-assertions"] if g.no_unwinding_assertions else ["--unwinding-assertions"]) + g.checks
         uws = list(g.unwindset)
         if g.unwind_fn:
             rc3, out3, err3, _ = run(["goto-instrument", "--show-loops", cur], 120)
